@@ -1,7 +1,7 @@
 (* ClientFold/Tie.v — the translator's view of the transcribed Rust agrees with the model.
 
    tools/rs2v_clientfold.py refuses to regenerate gen/ClientFoldTie.v (a broken tie, reported by
-   the check) unless the 55 transcribed function bodies are the ones the model was written from;
+   the check) unless the 63 transcribed function bodies are the ones the model was written from;
    here the number of assertion sites per file is compared with the model's Panic sites. *)
 From Coq Require Import List NArith.
 Import ListNotations.
@@ -27,5 +27,5 @@ Example tie_lifetime_asserts : N.of_nat (length lifetime_sites) = LIFETIME_DEBUG
 Proof. reflexivity. Qed.
 Example tie_lifetime_unreachable : LIFETIME_UNREACHABLE = 1.   (* LtUnreachable *)
 Proof. reflexivity. Qed.
-Example tie_functions : CLIENTFOLD_TIED_FUNCTIONS = 55.
+Example tie_functions : CLIENTFOLD_TIED_FUNCTIONS = 63.
 Proof. reflexivity. Qed.
